@@ -921,7 +921,7 @@ func (P) Generate(g *core.Gen) {
 		vlqVals = append(vlqVals, 1<<k, 1<<k-1, 1<<k+1, 1<<k+127, 1<<k+128)
 	}
 	vlqVals = append(vlqVals, ^uint64(0), ^uint64(0)-1, ^uint64(0)-127, ^uint64(0)-128)
-	for i := 0; i < g.N(1500, 40000); i++ {
+	for i := 0; i < g.N(1200, 40000); i++ {
 		v := r.U64() >> uint(r.Intn(64))
 		vlqVals = append(vlqVals, v)
 	}
@@ -980,7 +980,7 @@ func (P) Generate(g *core.Gen) {
 		18446744073000000000, 18000000000000000000, 10000000000000000000} {
 		amt("edge", a)
 	}
-	for i := 0; i < g.N(2500, 80000); i++ {
+	for i := 0; i < g.N(2000, 80000); i++ {
 		amt("random", genAmount(r))
 	}
 	for i := 0; i < g.N(1500, 50000); i++ {
@@ -995,7 +995,7 @@ func (P) Generate(g *core.Gen) {
 	}
 
 	// ---- scripts, txouts, utxo entries, stxos
-	for i := 0; i < g.N(1800, 20000); i++ {
+	for i := 0; i < g.N(1400, 20000); i++ {
 		t, cl := genTxo(r)
 		sh := hexTok(t.script)
 		rec(g, "scr-"+cl, len(t.script) > 0, "C15 scr "+sh)
@@ -1172,7 +1172,7 @@ func (P) Generate(g *core.Gen) {
 	}
 
 	// ---- spend journal
-	for i := 0; i < g.N(500, 8000); i++ {
+	for i := 0; i < g.N(400, 8000); i++ {
 		n := r.Intn(7)
 		l := make([]txo, n)
 		var sl []blockchain.SpentTxOut
